@@ -321,7 +321,79 @@ func (c *ctx) streamM() error {
 			return err
 		}
 	}
+	if c.want("enc") {
+		for i := 0; i < 8+c.n/150; i++ {
+			rt := roots[c.r.Intn(len(roots))]
+			c.historyCase(rt.l, rt.name)
+		}
+	}
 	return nil
+}
+
+// withBigField puts a large string/bytes value into the first top-level string/bytes field.
+func withBigField(c *ctx, l *Loaded, name string, v val.Val, size int) (val.Val, bool) {
+	m := l.File.Msg(name)
+	for i := range m.Fields {
+		fd := &m.Fields[i]
+		if (fd.Kind != "string" && fd.Kind != "bytes") || fd.Oneof != "" {
+			continue
+		}
+		sh := l.File.ShapeOf(fd)
+		big := val.Bs(gen.Str(c.r, size))
+		switch {
+		case sh.Repeated:
+			v.Elems[i] = val.ListOf([]val.Val{big})
+		case sh.Pointer:
+			v.Elems[i] = val.SomeOf(big)
+		default:
+			v.Elems[i] = big
+		}
+		return v, true
+	}
+	return v, false
+}
+
+// historyCase (C17): a sequence of Marshal / MarshalBuffer calls whose results are all retained;
+// after every call every earlier result must still hold the bytes it was returned with.
+func (c *ctx) historyCase(l *Loaded, name string) {
+	type kept struct {
+		buf  []byte
+		copy []byte
+	}
+	var results []kept
+	var desc []string
+	steps := 3 + c.r.Intn(3)
+	for s := 0; s < steps; s++ {
+		v := gen.Message(c.r, l.File, name, c.valOpts(), 0)
+		if c.r.Intn(2) == 0 {
+			size := []int{100, 3000, 4095, 4096, 4097, 5000, 20000, 70000}[c.r.Intn(8)]
+			v, _ = withBigField(c, l, name, v, size)
+		}
+		msg := l.Reg.ToStruct(name, v)
+		var out []byte
+		useBuf := c.r.Intn(3) == 0
+		p, _ := guarded(20*time.Second, func() {
+			if useBuf {
+				out, _ = picobuf.MarshalBuffer(msg, make([]byte, c.r.Intn(64), 64+c.r.Intn(9000)))
+			} else {
+				out, _ = picobuf.Marshal(msg)
+			}
+		})
+		c.rep.Evaluations++
+		desc = append(desc, fmt.Sprintf("%d bytes (buffer=%v)", len(out), useBuf))
+		if p != "" {
+			c.disagree(Disagreement{Kind: "panic", Check: "marshal", Case: caseOf(l, name, map[string]string{"value": v.String()}), Got: map[string]string{"real": p}})
+			return
+		}
+		for j, k := range results {
+			if !bytes.Equal(k.buf, k.copy) {
+				c.disagree(Disagreement{Kind: "result-modified", Check: "earlier-result-unchanged", Case: caseOf(l, name, map[string]string{"history": strings.Join(desc, "; "), "modified_result": fmt.Sprint(j)}),
+					Got: map[string]string{"diff": firstDiffHex(hexs(k.copy), hexs(k.buf))}})
+				return
+			}
+		}
+		results = append(results, kept{out, append([]byte(nil), out...)})
+	}
 }
 
 func (c *ctx) caseM(b *batch, l *Loaded, name string) error {
